@@ -1,21 +1,16 @@
 /-
-  Soundness of the rational enclosure oracle `Spec.Encl`, part 5: the argument reduction of `expI` stays
-  in the range on which the Taylor/squaring kernel is proved sound, for every input interval of
-  magnitude ≤ 10^60 and width ≤ 20000.  (Beyond ~10^79 the 80-digit rounding of `k·ln10` loses the units
-  digit and `expI` is in fact unsound, see the report.)
+  Soundness of the rational enclosure oracle `Spec.Encl`, part 5: the guard of `expI` (reduced argument in
+  [−8, 8]) holds, i.e. `expI`/`exp`/`expm1` do answer, for every input interval of magnitude ≤ 10^60 and
+  width ≤ 4.  (Beyond ~10^79 the 80-digit rounding of `k·ln10` loses the units digit; the unguarded `expI`
+  was unsound there — e.g. at x = 10^86 — which is why the guard was added to the specification.)
 
   1. `ln10_lo_ge : 23/10 ≤ ln10.lo`, `ln10_hi_le : ln10.hi ≤ 231/100`, `ln10_width : ln10.hi − ln10.lo ≤ 10^-75`
      (kernel evaluation of the closed rational terms, `decide +kernel`)
   2. `scale_eq`, `scale_bounds a c q (a.lo ≤ c ≤ a.hi)` :
         (a.scale q).lo ≤ c·q ≤ (a.scale q).hi  and both ends are within
         (a.hi − a.lo + (|a.lo|+|a.hi|)·10^-79)·|q| of c·q
-  3. `inRange_of_bounds a : a.lo ≤ a.hi → a.hi − a.lo ≤ 20000 → |a.lo| ≤ 10^60 → |a.hi| ≤ 10^60 → InRange a`
-     `inRange_pt x : |x| ≤ 10^60 → InRange (I.pt x)`
-  4. corollaries with hypotheses on the inputs only:
-     `expI_sound' a y : y ∈ᵢ a → a.hi − a.lo ≤ 20000 → |a.lo| ≤ 10^60 → |a.hi| ≤ 10^60 → Real.exp y ∈ₛ expI a`
-     `exp_sound' x : |x| ≤ 10^60 → Real.exp x ∈ₛ exp x`
-     `log_sound' : 0 < q → log q k = some l → |l.lo| ≤ 10^60 → |l.hi| ≤ 10^60 → Real.log (q·10^k) ∈ᵢ l`
-     `expm1_sound' x : |x| ≤ 10^60 → Real.exp x − 1 ∈ᵢ expm1 x`
+  3. `guard_of_bounds a : a.lo ≤ a.hi → a.hi − a.lo ≤ 4 → |a.lo| ≤ 10^60 → |a.hi| ≤ 10^60 → Guard a`, `guard_pt`
+  4. `expI_isSome`, `exp_isSome x : |x| ≤ 10^60 → ∃ s, Encl.exp x = some s`, `expm1_isSome`
 -/
 import D128.Proofs.EnclosureExpI
 set_option autoImplicit false
@@ -111,8 +106,12 @@ theorem abs_rdUp_le (q : ℚ) : |rdUp q| ≤ 2 * |q| := by
   have := le_abs_self q
   constructor <;> linarith
 
-theorem inRange_of_bounds (a : I) (hle : a.lo ≤ a.hi) (hw : a.hi - a.lo ≤ 20000)
-    (hlo : |a.lo| ≤ 10 ^ 60) (hhi : |a.hi| ≤ 10 ^ 60) : InRange a := by
+theorem eps_le_tenth : eps ≤ 1 / 10 := by
+  unfold eps; rw [div_le_div_iff₀ (by positivity) (by norm_num)]; norm_num
+
+/-- **the guard of `expI` holds** for every interval of width ≤ 4 and magnitude ≤ 10^60 -/
+theorem guard_of_bounds (a : I) (hle : a.lo ≤ a.hi) (hw : a.hi - a.lo ≤ 4)
+    (hlo : |a.lo| ≤ 10 ^ 60) (hhi : |a.hi| ≤ 10 ^ 60) : Guard a := by
   -- constants
   have c1 := ln10_lo_ge
   have c2 := ln10_hi_le
@@ -147,7 +146,7 @@ theorem inRange_of_bounds (a : I) (hle : a.lo ≤ a.hi) (hw : a.hi - a.lo ≤ 20
       nlinarith
   -- scale precision
   obtain ⟨s1, s2, s3, s4⟩ := scale_bounds ln10 L kq (by rw [hL]; linarith) (by rw [hL]; linarith)
-  have hWle : (ln10.hi - ln10.lo + (|ln10.lo| + |ln10.hi|) * eps) * |kq| ≤ 1 := by
+  have hWle : (ln10.hi - ln10.lo + (|ln10.lo| + |ln10.hi|) * eps) * |kq| ≤ 1 / 10 := by
     have e1 : |ln10.lo| = ln10.lo := abs_of_nonneg (by linarith)
     have e2 : |ln10.hi| = ln10.hi := abs_of_nonneg (by linarith)
     rw [e1, e2]
@@ -160,49 +159,57 @@ theorem inRange_of_bounds (a : I) (hle : a.lo ≤ a.hi) (hw : a.hi - a.lo ≤ 20
     calc (ln10.hi - ln10.lo + (ln10.lo + ln10.hi) * eps) * |kq|
         ≤ (1 / 10 ^ 74) * (10 ^ 60 + 1) :=
           mul_le_mul this hkabs (abs_nonneg _) (by positivity)
-      _ ≤ 1 := by norm_num
+      _ ≤ 1 / 10 := by norm_num
   set W : ℚ := (ln10.hi - ln10.lo + (|ln10.lo| + |ln10.hi|) * eps) * |kq| with hW
   set klo := (ln10.scale kq).lo with hklo
   set khi := (ln10.scale kq).hi with hkhi
-  unfold InRange
+  unfold Guard
   rw [expR_eq]
   simp only
   have hmlo : mid - a.lo = (a.hi - a.lo) / 2 := by rw [hmid]; ring
   have hmhi : a.hi - mid = (a.hi - a.lo) / 2 := by rw [hmid]; ring
+  have he := eps_le_tenth
+  have hep := eps_pos
   constructor
   · -- lower end: t = a.lo - khi ∈ [-(w/2) - W, L]
     have t1 : a.lo - khi ≤ L := by nlinarith
-    have t2 : -(10000 + 1) ≤ a.lo - khi := by nlinarith
-    have : |a.lo - khi| ≤ 10001 := by rw [abs_le]; constructor <;> linarith
-    have := abs_rdDown_le (a.lo - khi)
+    have t2 : -(2 + 1 / 10) ≤ a.lo - khi := by nlinarith
+    have habs : |a.lo - khi| ≤ 231 / 100 := by rw [abs_le]; constructor <;> linarith
+    have := rdDown_ge (a.lo - khi)
+    have : |a.lo - khi| * eps ≤ 231 / 100 * (1 / 10) :=
+      mul_le_mul habs he hep.le (by norm_num)
     linarith
   · have t1 : 0 ≤ a.hi - klo := by nlinarith
-    have t2 : a.hi - klo ≤ 10000 + 231 / 100 + 1 := by nlinarith
-    have : |a.hi - klo| ≤ 10004 := by rw [abs_le]; constructor <;> linarith
-    have := abs_rdUp_le (a.hi - klo)
+    have t2 : a.hi - klo ≤ 2 + 231 / 100 + 1 / 10 := by nlinarith
+    have habs : |a.hi - klo| ≤ 441 / 100 := by rw [abs_le]; constructor <;> linarith
+    have := rdUp_le (a.hi - klo)
+    have : |a.hi - klo| * eps ≤ 441 / 100 * (1 / 10) :=
+      mul_le_mul habs he hep.le (by norm_num)
     linarith
 
-theorem inRange_pt (x : ℚ) (hx : |x| ≤ 10 ^ 60) : InRange (I.pt x) :=
-  inRange_of_bounds (I.pt x) (le_refl _) (by show x - x ≤ 20000; simp) hx hx
+theorem guard_pt (x : ℚ) (hx : |x| ≤ 10 ^ 60) : Guard (I.pt x) :=
+  guard_of_bounds (I.pt x) (le_refl _) (by show x - x ≤ 4; simp) hx hx
 
-/-! ## 4. corollaries with hypotheses on the inputs only -/
+/-! ## 4. totality on sane arguments -/
 
-theorem expI_sound' (a : I) (y : ℝ) (hy : y ∈ᵢ a) (hw : a.hi - a.lo ≤ 20000)
-    (hlo : |a.lo| ≤ 10 ^ 60) (hhi : |a.hi| ≤ 10 ^ 60) : Real.exp y ∈ₛ expI a :=
-  expI_sound a y hy (inRange_of_bounds a (lo_le_hi_of_mem hy) hw hlo hhi)
+/-- `expI` answers on every interval of width ≤ 4 and magnitude ≤ 10^60 -/
+theorem expI_isSome (a : I) (hle : a.lo ≤ a.hi) (hw : a.hi - a.lo ≤ 4)
+    (hlo : |a.lo| ≤ 10 ^ 60) (hhi : |a.hi| ≤ 10 ^ 60) : ∃ s, expI a = some s :=
+  ⟨_, expI_of_guard (guard_of_bounds a hle hw hlo hhi)⟩
 
-theorem exp_sound' (x : ℚ) (hx : |x| ≤ 10 ^ 60) : Real.exp (x : ℝ) ∈ₛ Encl.exp x :=
-  exp_sound x (inRange_pt x hx)
+theorem exp_isSome (x : ℚ) (hx : |x| ≤ 10 ^ 60) : ∃ s, Encl.exp x = some s :=
+  ⟨_, expI_of_guard (guard_pt x hx)⟩
 
-theorem log_sound' {q : ℚ} {k : Int} {l : I} (hq : 0 < q) (h : Encl.log q k = some l)
-    (hlo : |l.lo| ≤ 10 ^ 60) (hhi : |l.hi| ≤ 10 ^ 60) :
-    Real.log ((q : ℝ) * (10 : ℝ) ^ k) ∈ᵢ l :=
-  log_sound hq h (inRange_pt _ hlo) (inRange_pt _ hhi)
+theorem expm1_isSome (x : ℚ) (hx : |x| ≤ 10 ^ 60) : ∃ v, Encl.expm1 x = some v := by
+  unfold Encl.expm1
+  rw [ite_neg_eq_abs]
+  split
+  · exact ⟨_, rfl⟩
+  · obtain ⟨s, hs⟩ := exp_isSome x hx
+    rw [hs]; exact ⟨_, rfl⟩
 
-theorem expm1_sound' (x : ℚ) (hx : |x| ≤ 10 ^ 60) : (Real.exp (x : ℝ) - 1) ∈ᵢ expm1 x :=
-  expm1_sound x (fun _ => inRange_pt x hx)
-
-example : Real.exp ((-12345 / 7 : ℚ) : ℝ) ∈ₛ Encl.exp (-12345 / 7) :=
-  exp_sound' _ (by rw [abs_le]; constructor <;> norm_num)
+example : ∃ s, Encl.exp (-12345 / 7) = some s ∧ Real.exp ((-12345 / 7 : ℚ) : ℝ) ∈ₛ s := by
+  obtain ⟨s, hs⟩ := exp_isSome (-12345 / 7) (by rw [abs_le]; constructor <;> norm_num)
+  exact ⟨s, hs, exp_sound hs⟩
 
 end EnclPf
